@@ -25,8 +25,9 @@ def strip_plat(sc):
 
 
 class ThreadStage:
-    def __init__(self, name, impl, procs, seed):
-        self.name, self.impl, self.procs, self.seed = name, impl, procs, seed
+    def __init__(self, name, impl, procs, seed, exe_suffix=""):
+        # exe_suffix: another build of the C driver (e.g. "_nd" = library compiled with -DNDEBUG -std=c99)
+        self.name, self.impl, self.procs, self.seed, self.exe_suffix = name, impl, procs, seed, exe_suffix
 
     def run(self, lean_exe):
         rng = Rng(self.seed)
@@ -34,6 +35,7 @@ class ThreadStage:
             ok, exe, log = core.build_rs(())
         else:
             ok, exe, log = core.build_c()
+            exe = exe + self.exe_suffix
         if not ok:
             return dict(evaluations=0, distinct=set(), hist={}, samples=[], mismatches=[dict(kind="driver-crash", impl_name=self.impl, ops=[], log_tail=log[-2000:])])
         # what does detection give on this machine? (the model needs the SIMD degree)
@@ -186,7 +188,9 @@ def stages(tier, seed, witness_search=False):
     # hashers on mapped files driven from the workers of one rayon pool (the file stage's pool-workers script: every hasher
     # must finish, with the digest it yields alone)
     from . import c11
-    return [ThreadStage("rs-threads", "rs", procs, seed), ThreadStage("c-threads", "c", procs, seed + 1), GlobalsStage(),
+    return [ThreadStage("rs-threads", "rs", procs, seed), ThreadStage("c-threads", "c", procs, seed + 1),
+            # the C library as a C99 release build (-DNDEBUG -std=c99: no _Thread_local, no C11 atomics, no assertions)
+            ThreadStage("c-threads-ndebug-c99-build", "c", max(8, procs // 2), seed + 2, exe_suffix="_nd"), GlobalsStage(),
             c11.FileStage(seed + 17, fifo=False)]
 
 
